@@ -38,7 +38,9 @@ def run(ctx):
             a = [tb.operand(x, bi, len(add_n.blocks[bi].stmts)) for x in t.args]
             if a[0] == ("field", selfp, "table"):
                 (idx_w if t.callee_name() == "index_mut" else idx_r).append(a[1])
-    okw = idx_w and idx_r and all(x == want for x in idx_w + idx_r)
+    # (a cell looked up once with `&mut self.table[x]` is read and written through that one reference: no separate read index;
+    # that the stored value is the old value of the same cell + n is R02-every-row-updated)
+    okw = bool(idx_w) and all(x == want for x in idx_w + idx_r)
     ctx.check(okw, "R02-cell-agreement", add_n.key, add_n, "add_n reads and writes table[%s]" % fmt(want),
               "add_n addresses the table at %s (expected row*self.w + column of the same hash iterator)" % [fmt(x) for x in (idx_w + idx_r)][:2])
     # query_point
